@@ -39,6 +39,8 @@ structure RatesCfg where
   cAsset : Nat
   isolated : Bool
   stableOk : Bool
+  liqPenalty : Dec := 0      -- LiquidationPenalty
+  eLiqPenalty : Dec := 0     -- ELiquidationPenalty (e-mode pairs)
   deriving Repr, DecidableEq
 
 structure PoolAsset where
@@ -136,6 +138,30 @@ structure Stats where
   totalBorrowed : Int
   totalStable : Int
   totalInterest : Int
+  lendIds : List Nat := []       -- PoolAssetLBMapping.LendIds
+  borrowIds : List Nat := []     -- PoolAssetLBMapping.BorrowIds (keyed by the pair's OUT pool / asset)
+  deriving Repr, DecidableEq
+
+/-- the reserve book-keeping of one asset: `ReserveBuybackAssetData` (`reserve`, `buyback`), `AllReserveStats` (the five flow totals) and the
+sum of the `FundReserveBal` entries of the asset (`funded`). A missing record reads as all-zero, as in the keeper (`!found` ⇒ zero record). -/
+structure Resv where
+  asset : Nat
+  reserve : Int := 0            -- ReserveBuybackAssetData.ReserveAmount
+  buyback : Int := 0            -- ReserveBuybackAssetData.BuybackAmount
+  outLenders : Int := 0         -- AllReserveStats.AmountOutFromReserveToLenders
+  outAuction : Int := 0         -- AllReserveStats.AmountOutFromReserveForAuction (first-generation auctions only)
+  inPenalty : Int := 0          -- AllReserveStats.AmountInFromLiqPenalty
+  inRepay : Int := 0            -- AllReserveStats.AmountInFromRepayments
+  totalOutLenders : Int := 0    -- AllReserveStats.TotalAmountOutToLenders (rewards paid, whatever their source)
+  funded : Int := 0             -- Σ FundReserveBal.AmountIn of the asset (MsgFundReserveAccounts)
+  deriving Repr, DecidableEq
+
+/-- the `LockedVault` of x/liquidationsV2 that a hand-over creates for a borrow (what the auction close reads back) -/
+structure Locked where
+  borrowId : Nat                -- OriginalVaultId
+  owner : Nat                   -- Owner (the lend position's owner at the hand-over)
+  target : Int                  -- TargetDebt = principal + FeeToBeCollected
+  fee : Int                     -- FeeToBeCollected
   deriving Repr, DecidableEq
 
 /-! ## Bank (small association list) -/
@@ -178,6 +204,10 @@ structure State where
   prices : List (Nat × Nat) := []      -- active oracle prices (asset id ↦ twa)
   killed : List Nat := []              -- app ids whose ESM kill switch (`BreakerEnable`) is on
   depPools : List Nat := []            -- pool ids listed in the pool-depreciation record
+  depPending : List Nat := []          -- … those of its entries whose flag `IsPoolDepreciated` is false, in record order (the block hook's work list)
+  delPools : List Nat := []            -- pools deleted by the block hook
+  resv : List Resv := []               -- reserve book-keeping records per asset
+  locked : List Locked := []           -- second-generation locked vaults of handed-over borrows
   deriving Repr
 
 /-- `esm.GetKillSwitchData(app).BreakerEnable` -/
@@ -204,6 +234,52 @@ def addBorrowed (ss : List Stats) (p a : Nat) (stable : Bool) (d : Int) : List S
     if stable then { s with totalStable := s.totalStable + d } else { s with totalBorrowed := s.totalBorrowed + d }
 def addTotalInterest (ss : List Stats) (p a : Nat) (d : Int) : List Stats :=
   modStats ss p a fun s => { s with totalInterest := s.totalInterest + d }
+
+/-! ### id lists of the pool-asset record (`LendIds`, `BorrowIds`) -/
+
+/-- Go's `sort.Search(n, f)`: binary search on `[i, j)`, `fuel ≥ j - i` iterations suffice -/
+def sortSearch (f : Nat → Bool) : (fuel i j : Nat) → Nat
+  | 0, i, _ => i
+  | fuel + 1, i, j =>
+    if i < j then
+      let h := (i + j) / 2
+      if f h then sortSearch f fuel i h else sortSearch f fuel (h + 1) j
+    else i
+
+/-- `DeleteIDFromAssetStatsMapping` (lend.go:422-443) on one list: binary search for the first entry `≥ id` — the list is taken to be
+ascending — and removal of that entry if it is the id; otherwise nothing is removed. -/
+def delId (ids : List Nat) (id : Nat) : List Nat :=
+  let k := sortSearch (fun i => decide (ids.getD i 0 ≥ id)) ids.length 0 ids.length
+  if k < ids.length ∧ ids.getD k 0 = id then ids.eraseIdx k else ids
+
+def addLendId (ss : List Stats) (p a id : Nat) : List Stats := modStats ss p a fun s => { s with lendIds := s.lendIds ++ [id] }
+def delLendId (ss : List Stats) (p a id : Nat) : List Stats := modStats ss p a fun s => { s with lendIds := delId s.lendIds id }
+def addBorrowId (ss : List Stats) (p a id : Nat) : List Stats := modStats ss p a fun s => { s with borrowIds := s.borrowIds ++ [id] }
+def delBorrowId (ss : List Stats) (p a id : Nat) : List Stats := modStats ss p a fun s => { s with borrowIds := delId s.borrowIds id }
+
+/-! ### reserve book-keeping records -/
+
+def getResv (rs : List Resv) (a : Nat) : Resv :=
+  match rs.find? (fun r => r.asset == a) with
+  | some r => r
+  | none => { asset := a }
+
+/-- read-modify-write of the record of asset `a` (created as a zero record when missing) -/
+def modResv (rs : List Resv) (a : Nat) (f : Resv → Resv) : List Resv :=
+  if rs.any (fun r => r.asset == a) then rs.map fun r => if r.asset = a then f r else r
+  else rs ++ [f { asset := a }]
+
+/-- the record part of `UpdateReserveBalances` (funds.go:9-33): BOTH halves move by `⌊x/2⌋` (`sdk.Int.Quo`), up (`inc`) or down -/
+def Resv.halves (r : Resv) (x : Int) (inc : Bool) : Resv :=
+  if inc then { r with reserve := r.reserve + Int.tdiv x 2, buyback := r.buyback + Int.tdiv x 2 }
+  else { r with reserve := r.reserve - Int.tdiv x 2, buyback := r.buyback - Int.tdiv x 2 }
+
+/-- coins that entered minus coins that left the reserve module account according to the records of the asset -/
+def Resv.flow (r : Resv) : Int := r.funded + r.inPenalty + r.inRepay - r.outLenders - r.outAuction
+
+/-- an interest share paid into the reserve: `UpdateReserveBalances(…, inc)` + `UpdateReserveAmtFromRepayments` -/
+def resvRepay (rs : List Resv) (a : Nat) (x : Int) : List Resv :=
+  modResv rs a fun r => { r.halves x true with inRepay := r.inRepay + x }
 
 /-- the derived `UserAssetLendBorrowMapping.BorrowId` of a lend -/
 def borrowsOfLend (bs : List Borrow) (lid : Nat) : List Borrow := bs.filter fun b => b.lendingId == lid
@@ -268,11 +344,14 @@ def iterLends (cfg : Cfg) (s : State) (lendId : Nat) (r : Int) : E State := do
       let b2 ← b1.mint pool.acct rates.cAsset r
       let b3 ← b2.send pool.acct l.owner rates.cAsset r
       pure { s with bank := b3, lends := setLend s.lends { l with avail := l.avail + r },
-                                            stats := addTotalLend s.stats l.pool l.asset r }
+                                            stats := addTotalLend s.stats l.pool l.asset r,
+                                            resv := modResv s.resv l.asset fun x =>
+                                              { x.halves r false with outLenders := x.outLenders + r, totalOutLenders := x.totalOutLenders + r } }
     else
       let b1 ← s.bank.send pool.acct l.owner rates.cAsset r
       pure { s with bank := b1, lends := setLend s.lends { l with avail := l.avail + r },
-                                            stats := addTotalLend (addTotalInterest s.stats l.pool l.asset (-r)) l.pool l.asset r }
+                                            stats := addTotalLend (addTotalInterest s.stats l.pool l.asset (-r)) l.pool l.asset r,
+                                            resv := modResv s.resv l.asset fun x => { x with totalOutLenders := x.totalOutLenders + r } }
   else pure s
 
 /-- What the real `IterateBorrow` did: it added `dI` to the interest and `dR` to the reserve share, or returned an
@@ -337,7 +416,7 @@ def lendNew (cfg : Cfg) (s : State) (u asset : Nat) (amt : Int) (pool : PoolCfg)
   let _ ← orErr (getStats s.stats pool.id asset) "stats not found"
   let l : Lend := { id := s.lendCtr + 1, owner := u, pool := pool.id, asset := asset, amountIn := amt, avail := amt, app := app }
   pure { s with bank := b3, lendCtr := s.lendCtr + 1, lends := s.lends ++ [l],
-                                            stats := addTotalLend s.stats pool.id asset amt }
+                                            stats := addLendId (addTotalLend s.stats pool.id asset amt) pool.id asset (s.lendCtr + 1) }
 
 /-- `LendAsset` (keeper.go:134-267) -/
 def lend (cfg : Cfg) (s : State) (u asset denom : Nat) (amt : Int) (poolId app : Nat) (r : Int) : E State := do
@@ -361,7 +440,7 @@ def closeLend (cfg : Cfg) (s : State) (u lendId : Nat) (r : Int) : E State := do
   let b2 ← b1.burn pool.acct rates.cAsset l.avail
   let b3 ← b2.send pool.acct u l.asset l.avail
   pure { s1 with bank := b3, lends := delLend s1.lends lendId,
-                                            stats := addTotalLend s1.stats l.pool l.asset (-l.avail) }
+                                            stats := delLendId (addTotalLend s1.stats l.pool l.asset (-l.avail)) l.pool l.asset lendId }
 
 /-- `WithdrawAsset` (keeper.go:269-374) -/
 def withdraw (cfg : Cfg) (s : State) (u lendId denom : Nat) (w r : Int) : E State := do
@@ -469,7 +548,7 @@ def openBorrow (s : State) (l : Lend) (pair : PairCfg) (stable : Bool) (dIn : Na
                       brDenom := brDenom, bridged := br, reserveInt := 0 }
   { s with bank := bank, borrowCtr := s.borrowCtr + 1, borrows := s.borrows ++ [b],
            lends := setLend s.lends { l with avail := l.avail - aIn },
-           stats := addBorrowed s.stats pair.outPool pair.assetOut stable aOut }
+           stats := addBorrowId (addBorrowed s.stats pair.outPool pair.assetOut stable aOut) pair.outPool pair.assetOut (s.borrowCtr + 1) }
 
 /-- `BorrowAsset` (keeper.go:527-863) when the user has no borrow on this pair yet (from line 597). -/
 def borrowNew (cfg : Cfg) (s : State) (u : Nat) (l : Lend) (pair : PairCfg) (rates : RatesCfg) (stable : Bool)
@@ -588,7 +667,8 @@ def closeBorrow (cfg : Cfg) (s : State) (u borrowId : Nat) (ext : ExtB) : E Stat
   let _ ← orErr (getStats s1.stats pair.outPool pair.assetOut) "stats not found"
   pure { s1 with bank := k5, borrows := delBorrow s1.borrows borrowId,
                                             lends := setLend s1.lends { l with avail := l.avail + b.amountIn },
-                                            stats := addBorrowed st1 pair.outPool pair.assetOut b.stable (-b.amountOut) }
+                                            stats := delBorrowId (addBorrowed st1 pair.outPool pair.assetOut b.stable (-b.amountOut)) pair.outPool pair.assetOut borrowId,
+                                            resv := if toReserve > 0 then resvRepay s1.resv pair.assetOut toReserve else s1.resv }
 
 /-- `RepayAsset` (keeper.go:865-1031) -/
 def repay (cfg : Cfg) (s : State) (u borrowId denom : Nat) (p : Int) (ext : ExtB) : E State := do
@@ -611,14 +691,16 @@ def repay (cfg : Cfg) (s : State) (u borrowId denom : Nat) (p : Int) (ext : ExtB
     let k1 ← s1.bank.send u pool.acct denom p
     if p ≤ toReserve then
       let k2 ← k1.send pool.acct cfg.reserveAcct denom p
-      pure { s1 with bank := k2, borrows := (setBorrow s1.borrows { b with reserveInt := b.reserveInt - Dec.ofInt p, interest := b.interest - Dec.ofInt p }) }
+      pure { s1 with bank := k2, resv := resvRepay s1.resv pair.assetOut p,
+                                            borrows := (setBorrow s1.borrows { b with reserveInt := b.reserveInt - Dec.ofInt p, interest := b.interest - Dec.ofInt p }) }
     else if p ≤ Dec.truncateInt b.interest then
       let k2 ← k1.send pool.acct cfg.reserveAcct denom toReserve
       let c := p - toReserve
       check (decide (¬ c < 0)) "reserve rates not found"
       let k3 ← if c > 0 then k2.mint pool.acct ratesOut.cAsset c else pure k2
       let st1 := if c > 0 then addTotalInterest s1.stats pair.outPool pair.assetOut c else s1.stats
-      pure { s1 with bank := k3, stats := st1, borrows := (setBorrow s1.borrows { b with reserveInt := b.reserveInt - Dec.ofInt toReserve, interest := b.interest - Dec.ofInt p }) }
+      pure { s1 with bank := k3, stats := st1, resv := resvRepay s1.resv pair.assetOut toReserve,
+                                            borrows := (setBorrow s1.borrows { b with reserveInt := b.reserveInt - Dec.ofInt toReserve, interest := b.interest - Dec.ofInt p }) }
     else
       let k2 ← k1.send pool.acct cfg.reserveAcct denom toReserve
       let c := Dec.truncateInt (b.interest - b.reserveInt)
@@ -628,7 +710,7 @@ def repay (cfg : Cfg) (s : State) (u borrowId denom : Nat) (p : Int) (ext : ExtB
       let cut := p - Dec.truncateInt b.interest
       let _ ← orErr (getStats s1.stats pair.outPool pair.assetOut) "stats not found"
       let st2 := addBorrowed st1 pair.outPool pair.assetOut b.stable (-cut)
-      pure { s1 with bank := k3, stats := st2,
+      pure { s1 with bank := k3, stats := st2, resv := resvRepay s1.resv pair.assetOut toReserve,
                                             borrows := (setBorrow s1.borrows { b with reserveInt := b.reserveInt - Dec.ofInt toReserve, amountOut := b.amountOut - cut, interest := b.interest - Dec.ofInt (Dec.truncateInt b.interest) }) }
 
 /-- `RepayWithdraw` (keeper.go:1981-1993) -/
@@ -697,7 +779,9 @@ def fundReserve (cfg : Cfg) (s : State) (u asset denom : Nat) (amt : Int) : E St
   let _ ← orErr (cfg.asset? asset) "asset does not exist"
   check (denom == asset) "bad offer coin type"
   let k1 ← s.bank.send u cfg.reserveAcct denom amt
-  pure { s with bank := k1 }
+  -- both record halves by ⌊amt/2⌋, one `FundReserveBal` entry of `amt`; `RemoveFaultyAuctions` (keeper.go:1625) runs over the
+  -- first-generation lend auctions of app 3 — none exist in a second-generation world
+  pure { s with bank := k1, resv := modResv s.resv asset fun r => { r.halves amt true with funded := r.funded + amt } }
 
 /-! ## Liquidation hand-over (x/liquidationsV2/keeper/liquidate.go:360-404) -/
 
@@ -718,10 +802,95 @@ def handover (cfg : Cfg) (s : State) (borrowId : Nat) (newInterest : Dec) : E St
   let st := addTotalLend (addBorrowed s.stats pair.outPool pair.assetOut b.stable (-b.amountOut)) l.pool l.asset (-b.amountIn)
   let bs := setBorrow s.borrows { b with liq := true, interest := newInterest }
   let l' : Lend := { l with amountIn := l.amountIn - b.amountIn }
+  -- `CreateLockedVault`: the fee always uses `LiquidationPenalty` (liquidate.go:372), also on an e-mode pair
+  let fee := Dec.truncateInt (Dec.mul (Dec.ofInt b.amountOut) rates.liqPenalty)
+  check (decide (¬ fee < 0)) "negative coin"
+  let lk := s.locked ++ [{ borrowId := b.id, owner := l.owner, target := b.amountOut + fee, fee := fee }]
   if ¬ l'.amountIn > 0 then
-    pure { s with bank := k2, borrows := bs, stats := st, lends := delLend s.lends l.id }
+    pure { s with bank := k2, borrows := bs, stats := delLendId st l.pool l.asset l.id, lends := delLend s.lends l.id, locked := lk }
   else
-    pure { s with bank := k2, borrows := bs, stats := st, lends := setLend s.lends l' }
+    pure { s with bank := k2, borrows := bs, stats := st, lends := setLend s.lends l', locked := lk }
+
+/-! ## After the hand-over: the second-generation Dutch auction (x/auctionsV2/keeper/bid.go) -/
+
+def getLocked (ks : List Locked) (borrowId : Nat) : Option Locked := ks.find? (fun k => k.borrowId == borrowId)
+def delLocked (ks : List Locked) (borrowId : Nat) : List Locked := ks.filter fun k => k.borrowId != borrowId
+
+/-- A partial fill (`PlaceDutchAuctionBid`, bid.go:234-290): the bidder pays `paid` of the debt asset into the auction module and
+receives `recv` of the collateral. Price, dust rule and bonus share are property C10; the lending books are not touched. -/
+def auctionBid (cfg : Cfg) (s : State) (bidder borrowId : Nat) (paid recv : Int) : E State := do
+  let b ← orErr (getBorrow s.borrows borrowId) "borrow not found"
+  let _ ← orErr (getLocked s.locked borrowId) "locked vault not found"
+  check b.liq "borrow not under liquidation"
+  let pair ← orErr (cfg.pair? b.pairId) "pair not found"
+  let k1 ← s.bank.send bidder cfg.auctionAcct b.outDenom paid
+  let k2 ← k1.send cfg.auctionAcct bidder pair.assetIn recv
+  pure { s with bank := k2 }
+
+/-- The closing bid (bid.go:52-233) with the lend branch `MsgCloseDutchAuctionForBorrow` (x/liquidationsV2/keeper/liquidate.go:722-814).
+Auction side (amounts are inputs, their laws are property C10): `topUp` drawn from the liquidation module's app reserve when the
+collateral runs out, the bidder pays `paid` and receives `recv` of the collateral, the rest `left` goes to the owner recorded in the
+locked vault. Lending side (modelled exactly): the target debt goes to the debt pool; from there the liquidation penalty on the
+principal (the e-mode penalty on an e-mode pair) and the whole tokens of the reserve's interest share go to the reserve with their
+records; cTokens for the lenders' interest share are minted into `totalInterestAccumulated`; the bridged transit asset returns to the
+collateral's pool (read from the lend position — a deleted position makes the bank call panic); the borrow, its id-list entry and
+the locked vault are deleted. -/
+def auctionClose (cfg : Cfg) (s : State) (bidder borrowId : Nat) (paid recv left topUp : Int) : E State := do
+  let b ← orErr (getBorrow s.borrows borrowId) "borrow not found"
+  let lk ← orErr (getLocked s.locked borrowId) "locked vault not found"
+  -- stands for the invariant "a locked vault's borrow carries the liquidation flag" (locked vaults are created by the hand-over only,
+  -- which sets the flag, and no handler clears it); the code has no such test
+  check b.liq "borrow not under liquidation"
+  let pair ← orErr (cfg.pair? b.pairId) "pair not found"
+  let k0 ← s.bank.mint cfg.auctionAcct b.outDenom topUp
+  let k1 ← k0.send bidder cfg.auctionAcct b.outDenom paid
+  let k2 ← k1.send cfg.auctionAcct bidder pair.assetIn recv
+  let k3 ← k2.send cfg.auctionAcct lk.owner pair.assetIn left
+  -- MsgCloseDutchAuctionForBorrow
+  let pool ← orErr (cfg.pool? pair.outPool) "pool not found"
+  let ratesOut ← orErr (cfg.rates? pair.assetOut) "rates not found"
+  let ratesIn ← orErr (cfg.rates? pair.assetIn) "rates not found"
+  let k4 ← k3.send cfg.auctionAcct pool.acct b.outDenom lk.target
+  let pen := Dec.truncateInt (Dec.mul (Dec.ofInt b.amountOut) (if pair.eMode then ratesIn.eLiqPenalty else ratesIn.liqPenalty))
+  let k5 ← k4.send pool.acct cfg.reserveAcct b.outDenom pen
+  let r1 := modResv s.resv pair.assetOut fun r => { r.halves pen true with inPenalty := r.inPenalty + pen }
+  let toReserve := Dec.truncateInt b.reserveInt
+  let k6 ← if toReserve > 0 then k5.send pool.acct cfg.reserveAcct b.outDenom toReserve else pure k5
+  let r2 := if toReserve > 0 then resvRepay r1 pair.assetOut toReserve else r1
+  let toMint := Dec.truncateInt (b.interest - b.reserveInt)
+  let k7 ← if toMint > 0 then k6.mint pool.acct ratesOut.cAsset toMint else pure k6
+  let st1 := if toMint > 0 then addTotalInterest s.stats pair.outPool pair.assetOut toMint else s.stats
+  let k8 ← if b.bridged > 0 then do
+      let l ← orErr (getLend s.lends b.lendingId) "module account does not exist"     -- bank panic on the empty module name
+      let inPool ← orErr (cfg.pool? l.pool) "module account does not exist"
+      k7.send pool.acct inPool.acct b.brDenom b.bridged
+    else pure k7
+  pure { s with bank := k8, borrows := delBorrow s.borrows borrowId, locked := delLocked s.locked borrowId, resv := r2,
+                stats := delBorrowId st1 pair.outPool pair.assetOut borrowId }
+
+/-! ## The store migration 2 → 3 (x/lend/keeper/migrate.go:126-246): a configuration change
+
+`MigrateLendPairs` / `MigrateAssetRatesParams` re-encode every pair and every asset-rates record: e-mode off, isolation off, e-LTV,
+e-threshold and e-penalty zero. They decode each record into ONE variable declared outside the loop with the generated `Unmarshal`,
+which does not reset its receiver: a proto3 field that is absent on the wire (a `false` bool) keeps the value of the PREVIOUS record —
+`IsInterPool` and `EnableStableBorrow` are sticky once a record had them `true` (store order = ascending id). Positions, totals,
+balances and records of the state are not touched. -/
+
+def migratePairs : Bool → List PairCfg → List PairCfg
+  | _, [] => []
+  | carry, p :: ps => { p with inter := p.inter || carry, eMode := false } :: migratePairs (p.inter || carry) ps
+
+def migrateRates : Bool → List RatesCfg → List RatesCfg
+  | _, [] => []
+  | carry, r :: rs => { r with stableOk := r.stableOk || carry, isolated := false, eLtv := 0, eLiqPenalty := 0 } :: migrateRates (r.stableOk || carry) rs
+
+/-- what `Migrate2to3` does to the configuration -/
+def migrateCfg (cfg : Cfg) : Cfg := { cfg with pairs := migratePairs false cfg.pairs, rates := migrateRates false cfg.rates }
+
+/-- what it is written to do: every record on its own -/
+def migrateCfgSpec (cfg : Cfg) : Cfg :=
+  { cfg with pairs := cfg.pairs.map fun p => { p with eMode := false },
+             rates := cfg.rates.map fun r => { r with isolated := false, eLtv := 0, eLiqPenalty := 0 } }
 
 /-! ## Operations, step, run -/
 
@@ -743,8 +912,11 @@ inductive Op where
   | fundReserve (u asset denom : Nat) (amt : Int)
   | setPrice (asset : Nat) (twa : Option Nat)
   | setKill (app : Nat) (on : Bool)
-  | setDepreciated (pool : Nat)
+  | setDepreciated (pool : Nat) (flag : Bool := false)
+  | beginBlock
   | handover (borrowId : Nat) (newInterest : Dec)
+  | bid (bidder borrowId : Nat) (paid recv : Int)
+  | auctionClose (bidder borrowId : Nat) (paid recv left topUp : Int)
   deriving Repr
 
 /-- `ValidateBasic` of the message (x/lend/types/tx.go): ids non-zero, amounts positive. -/
@@ -767,7 +939,10 @@ def Op.validateBasic : Op → Bool
   | .setPrice .. => true
   | .setKill .. => true
   | .setDepreciated .. => true
+  | .beginBlock => true
   | .handover .. => true
+  | .bid .. => true
+  | .auctionClose .. => true
 
 def setPrice (s : State) (asset : Nat) (twa : Option Nat) : State :=
   let rest := s.prices.filter fun e => e.1 != asset
@@ -780,7 +955,52 @@ def setKill (s : State) (app : Nat) (on : Bool) : State :=
   let rest := s.killed.filter fun a => a != app
   { s with killed := if on then app :: rest else rest }
 /-- governance: list a pool in the depreciation record (`AddPoolDepreciate`) -/
-def setDepreciated (s : State) (pool : Nat) : State := { s with depPools := pool :: s.depPools }
+def setDepreciated (s : State) (pool : Nat) (flag : Bool := false) : State :=
+  { s with depPools := pool :: s.depPools, depPending := if flag then s.depPending else s.depPending ++ [pool] }
+
+/-! ## The block hook of x/lend (abci.go, every 14400th block): `DeletePoolAndTransferInterest` (pair.go:606-661) -/
+
+/-- no lend or borrow id is listed for (pool, asset) — a missing record reads as empty lists -/
+def noIds (ss : List Stats) (p a : Nat) : Bool :=
+  match getStats ss p a with
+  | some st => st.lendIds.isEmpty && st.borrowIds.isEmpty
+  | none => true
+
+/-- one entry of the depreciation record whose flag is false: when none of the pool's three transit-typed assets has a lend or
+borrow id left, the pool's balances of the three assets go to the reserve (`UpdateReserveBalances`: both record halves, NO
+`AllReserveStats` / `FundReserveBal` entry) and the pool is deleted. The flag is set on a COPY of the entry (range variable), so the
+entry stays pending: at the next run `GetPool` gives the zero record, the asset ids are 0, the id lists of the missing records are
+empty, and `GetBalance` panics on the empty denomination. -/
+def sweepPool (cfg : Cfg) (s : State) (poolId : Nat) : E State := do
+  check (!s.delPools.contains poolId) "invalid denom"
+  let pool ← orErr (cfg.pool? poolId) "invalid denom"
+  let a1 := transitOf pool.assets 1
+  let a2 := transitOf pool.assets 2
+  let a3 := transitOf pool.assets 3
+  if noIds s.stats poolId a1 && noIds s.stats poolId a2 && noIds s.stats poolId a3 then
+    let _ ← orErr (cfg.asset? a1) "invalid denom"
+    let _ ← orErr (cfg.asset? a2) "invalid denom"
+    let _ ← orErr (cfg.asset? a3) "invalid denom"
+    let x1 := s.bank.get pool.acct a1
+    let x2 := s.bank.get pool.acct a2
+    let x3 := s.bank.get pool.acct a3
+    let k1 ← s.bank.send pool.acct cfg.reserveAcct a1 x1
+    let k2 ← k1.send pool.acct cfg.reserveAcct a2 x2
+    let k3 ← k2.send pool.acct cfg.reserveAcct a3 x3
+    let r1 := modResv s.resv a1 fun r => r.halves x1 true
+    let r2 := modResv r1 a2 fun r => r.halves x2 true
+    let r3 := modResv r2 a3 fun r => r.halves x3 true
+    pure { s with bank := k3, resv := r3, delPools := poolId :: s.delPools }
+  else pure s
+
+def sweepPools (cfg : Cfg) : State → List Nat → E State
+  | s, [] => .ok s
+  | s, p :: ps => do
+    let s1 ← sweepPool cfg s p
+    sweepPools cfg s1 ps
+
+/-- the hook at a block height divisible by 14400; an error or panic anywhere discards everything (`ApplyFuncIfNoError`) -/
+def beginBlock (cfg : Cfg) (s : State) : E State := sweepPools cfg s s.depPending
 
 def step (cfg : Cfg) (s : State) (op : Op) : E State :=
   if !op.validateBasic then .error "validate basic" else
@@ -802,8 +1022,11 @@ def step (cfg : Cfg) (s : State) (op : Op) : E State :=
   | .fundReserve u asset denom amt => fundReserve cfg s u asset denom amt
   | .setPrice asset twa => .ok (setPrice s asset twa)
   | .setKill app on => .ok (setKill s app on)
-  | .setDepreciated pool => .ok (setDepreciated s pool)
+  | .setDepreciated pool flag => .ok (setDepreciated s pool flag)
+  | .beginBlock => beginBlock cfg s
   | .handover borrowId ni => handover cfg s borrowId ni
+  | .bid bidder borrowId paid recv => auctionBid cfg s bidder borrowId paid recv
+  | .auctionClose bidder borrowId paid recv left topUp => auctionClose cfg s bidder borrowId paid recv left topUp
 
 /-- a rejected message leaves the state unchanged (cache context written back only on success) -/
 def apply (cfg : Cfg) (s : State) (op : Op) : State :=
@@ -846,6 +1069,38 @@ def TotalStableEq (cfg : Cfg) (s : State) : Prop :=
 instance (s : State) : Decidable (TotalLendEq s) := by unfold TotalLendEq; infer_instance
 instance (cfg : Cfg) (s : State) : Decidable (TotalBorrowedEq cfg s) := by unfold TotalBorrowedEq; infer_instance
 instance (cfg : Cfg) (s : State) : Decidable (TotalStableEq cfg s) := by unfold TotalStableEq; infer_instance
+
+/-! ## The id lists of the pool-asset records (decidable: evaluated on the REAL state projection)
+
+`LendIds` of (pool, asset) = the ids of the lend positions of that pool and asset, `BorrowIds` = the ids of the borrows whose pair lends
+OUT that asset of that pool (liquidated ones included, until the auction close deletes them) — as lists, in creation order, which is
+ascending id order: `DeleteIDFromAssetStatsMapping` finds an id by binary search. These lists are what `GetBorrows` (the liquidation
+sweeps of both generations) and the interest queries iterate. -/
+
+def lendIdsOf (ls : List Lend) (p a : Nat) : List Nat := (ls.filter fun l => l.pool == p && l.asset == a).map (·.id)
+def borrowIdsOf (cfg : Cfg) (bs : List Borrow) (p a : Nat) : List Nat :=
+  (bs.filter fun b => cfg.pairOut b.pairId == some (p, a)).map (·.id)
+
+def IdsOk (cfg : Cfg) (s : State) : Prop :=
+  ∀ st ∈ s.stats, st.lendIds = lendIdsOf s.lends st.pool st.asset ∧ st.borrowIds = borrowIdsOf cfg s.borrows st.pool st.asset
+
+instance (cfg : Cfg) (s : State) : Decidable (IdsOk cfg s) := by unfold IdsOk; infer_instance
+
+/-! ## The reserve ledger (decidable)
+
+For every asset the coins in the reserve module account are the genesis balance plus what the records say came in (funding messages,
+liquidation penalties, the reserve's share of repaid interest) minus what they say went out (rewards paid to lenders from the reserve,
+first-generation auction cover); the two halves `ReserveAmount` / `BuybackAmount` always agree. -/
+
+def ResLedger (cfg : Cfg) (bank0 : Bank) (s : State) : Prop :=
+  ∀ a, s.bank.get cfg.reserveAcct a = bank0.get cfg.reserveAcct a + (getResv s.resv a).flow
+
+/-- the same on a finite list of assets (what the driver evaluates) -/
+def resLedgerOn (cfg : Cfg) (bank0 : Bank) (s : State) (assets : List Nat) : Bool :=
+  assets.all fun a => s.bank.get cfg.reserveAcct a == bank0.get cfg.reserveAcct a + (getResv s.resv a).flow
+
+def HalvesEq (s : State) : Prop := ∀ r ∈ s.resv, r.reserve = r.buyback
+instance (s : State) : Decidable (HalvesEq s) := by unfold HalvesEq; infer_instance
 
 /-! ## The LTV comparison over the integers (decidable: the driver evaluates it on the REAL accepted operations)
 
